@@ -12,6 +12,7 @@ from spacepackets.cfdp.pdu.file_directive import (
 from spacepackets.cfdp.defs import ConditionCode, CrcFlag, Direction
 from spacepackets.cfdp.conf import PduConfig
 from spacepackets.crc import CRC16_CCITT_FUNC
+from spacepackets.exceptions import BytesTooShortError
 
 
 class TransactionStatus(enum.IntEnum):
@@ -137,7 +138,15 @@ class AckPdu(AbstractFileDirectiveBase):
         ack_packet = cls.__empty()
         ack_packet.pdu_file_directive = FileDirectivePduBase.unpack(raw_packet=data)
         ack_packet.pdu_file_directive.verify_length_and_checksum(data)
+        # Only the octets of this PDU in front of its CRC trailer (if there is one) hold
+        # directive parameters. Nothing behind that belongs to the PDU.
+        end_of_params = ack_packet.pdu_file_directive.packet_len
+        if ack_packet.pdu_file_directive.pdu_conf.crc_flag == CrcFlag.WITH_CRC:
+            end_of_params -= 2
+        data = data[:end_of_params]
         current_idx = ack_packet.pdu_file_directive.header_len
+        if current_idx + 2 > len(data):
+            raise BytesTooShortError(current_idx + 2, len(data))
         ack_packet.directive_code_of_acked_pdu = (data[current_idx] & 0xF0) >> 4
         ack_packet.directive_subtype_code = data[current_idx] & 0x0F
         current_idx += 1
